@@ -69,7 +69,7 @@ fn nth_text(i: u64, toks: &mut Vec<usize>) -> String {
 }
 
 pub fn run(ctx: &Ctx) -> i32 {
-    let max = if ctx.thorough() { 7 } else { 6 };
+    let max = if ctx.thorough() { 8 } else { 6 };
     let n = strings_count(TOKENS.len(), max);
     let a = merge(par_fold(n, Acc::new, |i, acc| {
         let mut toks = Vec::with_capacity(8);
@@ -85,7 +85,7 @@ pub fn run(ctx: &Ctx) -> i32 {
 
     // character level (names are not pre-tokenised): includes a multi-byte character and a tab
     let chars = ["a", "c", "p", "_", "é", "=", "+", "e", " ", ",", "\t", "A", "\u{b}", "\u{a0}", "\u{2003}", "\u{85}"];
-    let cl = if ctx.thorough() { 6 } else { 5 };
+    let cl = if ctx.thorough() { 7 } else { 5 };
     let nc = strings_count(chars.len(), cl);
     let cacc = merge(par_fold(nc, Acc::new, |i, acc| {
         let mut toks = Vec::with_capacity(8);
@@ -202,7 +202,7 @@ pub fn run(ctx: &Ctx) -> i32 {
     let _ = std::fs::create_dir_all(&dir);
     let src = dir.join("f");
     std::fs::write(&src, b"x").expect("temp");
-    let n3 = strings_count(TOKENS.len(), if ctx.thorough() { 4 } else { 3 });
+    let n3 = strings_count(TOKENS.len(), if ctx.thorough() { 5 } else { 3 });
     let b = merge(par_fold(n3, Acc::new, |i, acc| {
         let mut toks = vec![];
         let s = nth_text(i, &mut toks);
